@@ -19,6 +19,39 @@ def explore(ctx):
                        exhaustive=(5, 5) if ctx.quick else (7, 8))
     from . import grid_common
     grid_common.neighbour_tie(ctx, max_len=3 if ctx.quick else 4)
+    grid_common.reused_adjacency_stream(ctx, 120 if ctx.quick else 1200)
+    long_axis_stream(ctx)
+
+
+def long_axis_stream(ctx):
+    """Axes longer than 2**15 and 2**16 (a spectrum of 40000 / 70000 channels): a few bright features far out on the
+    axis, everything else at or below the threshold; oracle only."""
+    rng = ctx.rng('long-axis')
+    shapes = [[40000], [2, 40000]] if ctx.quick else [[40000], [2, 40000], [70000], [3, 2, 33000], [40000, 2]]
+    for shape in shapes:
+        n = gen.nprod(shape)
+        long_ax = max(range(len(shape)), key=lambda a: shape[a])
+        vals = [0] * n
+        strides = [gen.nprod(shape[a + 1:]) for a in range(len(shape))]
+        for _ in range(rng.randint(3, 6)):
+            centre = rng.randint(shape[long_ax] // 2, shape[long_ax] - 6)
+            other = [rng.randrange(s) for s in shape]
+            for off in range(-rng.randint(1, 4), rng.randint(2, 5)):
+                coord = list(other)
+                coord[long_ax] = centre + off
+                vals[sum(c * st for c, st in zip(coord, strides))] = rng.randint(1, 9)
+        case = {'shape': shape, 'vals': vals, 'scale': 0, 'dtype': 'float64', 'adj': ['grid', [False] * len(shape)],
+                'minv': 0, 'delta': 0, 'npix': [0, 1], 'crit': []}
+        try:
+            d = impl.run_compute(case)
+            fails = oracle(case, d) + oracles.oracle_c01(case, d)
+        except Exception as e:
+            fails = ['compute raised %r' % (e,)]
+        ctx.count('long_axis_cases')
+        ctx.case_done(None, ('long', tuple(shape)))
+        if fails:
+            small = dict(case, vals='(%d pixels; non-zero: %s)' % (n, {i: v for i, v in enumerate(vals) if v}))
+            ctx.oracle_failure(small, fails[:4])
 
 
 def shrink(case, fails, extra):
